@@ -4,6 +4,41 @@ NOTES = ("Technique: machine-checked proof in Lean 4 about a hand-written execut
          "correspondence run on every check (DESIGN.md). fix: commits in /repo are listed in known_findings.json.")
 NOT_APPLICABLE = {}
 CHECKS = {
+    "C13": {
+        "text": ("Lean theorems (entry level, unbounded): without options the metadata a copied entry ends up with is the source's, with chown/utime/mode the "
+                 "requested owner/time/permission bits, symlinks excepted (no_options_preserves, chown_option, utime_option, mode_option_*). Correspondence: "
+                 "copy.Copy in a chroot'ed child on materialised trees (all types, hard-link groups, suid/sgid/sticky, xattrs incl. file capabilities, ns "
+                 "mtimes) into an empty root: whole tree / sub-directory / single file / single symlink / follow-links x {chown, octal mode, utime} vs the "
+                 "executable tree-level reference (landing rule, children-then-metadata, created parents, notifier calls)."),
+        "note": ("Trusted: Lean kernel + standard axioms; the tree-level reference is the specification (no separate transcription of the syscall sequence): "
+                 "every difference is judged as a violation candidate; symbolic mode strings and the xattr error handler are not generated; POSIX effects observed "
+                 "via lstat snapshot."),
+        "technique": "Lean 4 theorems about an executable tree-level reference model of copy + differential correspondence with the real copy on generated trees",
+    },
+    "C14": {
+        "text": ("Lean theorem (unbounded): the chroot-style resolver never leaves the root — for every tree (absolute, '..'-laden, dangling, looping links), "
+                 "every path and every fuel the location reached has plain components only (resolve_stays_inside). Correspondence/containment: copies with "
+                 "symlinks to sentinel files/directories outside both roots planted in source tree, destination tree and both path arguments; full snapshot "
+                 "(inode, mode, owner, times, bytes, xattrs) of everything outside the destination root before/after; sentinel bytes must not appear in the copy."),
+        "note": ("Trusted: Lean kernel + standard axioms; that containerd/continuity RootPath behaves like the modelled resolver and that every target is "
+                 "inspected with lstat is decided by the sentinel oracle on generated placements, not by a theorem over a POSIX model."),
+    },
+    "C15": {
+        "text": ("Lean theorems (unbounded, abstract tree maps): overlaying a source twice equals overlaying it once, source entries win, unrelated destination "
+                 "entries stay (overlay_idempotent, overlay_source_wins, overlay_keeps_unrelated); upsert_idem for the working tree. Correspondence: copies onto "
+                 "destinations that are edit scripts of the source (every type pair collides) x {dir-contents, always-replace, trailing separator, nested dst}, "
+                 "three applications each: result vs the executable reference (merge, replace, conflict error leaving the obstacle), idempotence whenever the "
+                 "repetition lands on the same path (landing computed by the model)."),
+        "note": ("Trusted: Lean kernel + standard axioms. Reading of idempotence: demanded when the repeated call resolves to the same landing path (DESIGN C15-T3); "
+                 "wildcard sources are not generated yet."),
+    },
+    "C16": {
+        "text": ("Lean theorems (unbounded): an entry the include/exclude lists do not select has no effect of its own — no directory, no write, no "
+                 "notification (not_selected_no_effect); the copied source itself is always selected. Correspondence: copy with include/exclude lists from the "
+                 "C10 fragment into empty/populated roots vs the executable reference (parent-result selection, on-demand ancestors with source mode/owner/xattrs "
+                 "and kernel timestamps, chmod of existing ancestors); comparison of the copied set with the naive reference filter (finding F5)."),
+        "note": ("Trusted: Lean kernel + standard axioms; patternmatcher modelled for the declared fragment (tied by suite pattern). Known finding F5."),
+    },
     "C18": {
         "text": ("Lean theorems (unbounded): for every bytewise-sorted input the repaired de-duplication returns a list in which no element is inside another "
                  "(dedupe_prefix_free, by an invariant over the loop), kernel-checked witnesses for the unrepaired/repaired versions. Correspondence: "
